@@ -62,6 +62,11 @@ type deferred struct {
 	fn   Val
 	args []Val
 	recv Val
+	// marker of a lock-accumulating loop (flag accumulates_locks): when the function's defers run, the
+	// releases deferred by the loop's iterations run here: lock heap -> value before the loop
+	loopRelease map[string]string
+	loopExit    map[string]string // lock heap -> value when the loop was left (nil: left by return)
+	loopNode    ast.Node
 }
 
 func (s *State) clone() *State {
@@ -130,6 +135,7 @@ type VC struct {
 	posCount  map[string]int
 	loopOld   map[types.Object]Val
 	guardSeen map[string]bool
+	accum     *accumCtx // innermost enclosing lock-accumulating loop
 	acquired  map[string]bool
 	inAtomic  int
 	curPos    token.Pos
@@ -409,6 +415,11 @@ func (vc *VC) mergeVal(c string, a, b Val, name string) Val {
 		}
 		if x.T == y.T {
 			return x
+		}
+		if x.S != y.S {
+			// a dead local of an inlined generic callee, left over from two different instantiations
+			// (DataBlock[V].Write(item V) with V = *StoreMeta and V = int): arbitrary
+			return sc(vc.declare(name+".dead", x.S), x.S)
 		}
 		return sc(vc.define(name, x.S, ite(c, x.T, y.T)), x.S)
 	case *SliceV:
